@@ -40,6 +40,9 @@ type c17Scenario struct {
 	// that a round can deterministically start with an already-cancelled context
 	// (under RunSequencer that is a coin toss of its select statement).
 	direct int
+	// stalledDiscard: every Discard hangs until its context ends; the passing of
+	// the sequencing deadline is an (idle) move.
+	stalledDiscard bool
 }
 
 const c17Period = 1 * time.Second
@@ -80,6 +83,7 @@ type c17Exec struct {
 	genAtJump int
 	// commitGens records the pool generation at each lock commit.
 	commitGens []int
+	deadlines  int // "the sequencing deadline passes" moves taken
 }
 
 func (x *c17Exec) observeRotation() {
@@ -141,6 +145,12 @@ func (x *c17Exec) moves() []verifmc.Move {
 	if x.ticks < x.sc.ticks && !(x.cancelled && !stopped) {
 		ms = append(ms, verifmc.Move{Label: "tick", Cost: 0, IdleOnly: true, Do: tick})
 		ms = append(ms, verifmc.Move{Label: "tick", Cost: 1, Do: tick})
+	}
+	if x.sc.stalledDiscard && x.deadlines < x.sc.direct {
+		ms = append(ms, verifmc.Move{Label: "the sequencing deadline passes", Cost: 0, IdleOnly: true, Do: func() {
+			x.deadlines++
+			time.Sleep(sequenceTimeout + time.Second)
+		}})
 	}
 	if x.sc.cancel && !x.cancelled && !stopped && (!tickPending || x.sc.direct > 0) {
 		ms = append(ms, verifmc.Move{Label: "cancel", Cost: 1, Do: func() { x.cancelled = true; x.in.cancel() }})
@@ -356,6 +366,11 @@ func runC17(t *testing.T, sc *c17Scenario, prefix []int) *verifmc.ExecResult {
 		in.bh.Quiet, in.lh.Quiet = false, false
 		// Only lock operations fail (the fatal stop); storage faults are C01-C04's subject.
 		in.bh.NoFaults = true
+		release := make(chan struct{})
+		defer close(release)
+		if sc.stalledDiscard {
+			in.be.stallDiscard, in.be.release = true, release
+		}
 		s.Moves = x.moves
 		if sc.direct > 0 {
 			s.GoPrio("run", 5, func() {
@@ -384,6 +399,19 @@ func runC17(t *testing.T, sc *c17Scenario, prefix []int) *verifmc.ExecResult {
 			panic(verifmc.EngineError{Msg: e})
 		}
 		mismatch := s.Mismatch
+		if sc.direct > 0 && !mismatch && !s.HorizonHit {
+			// Nothing can run any more (and every sequencing deadline that was
+			// pending has passed): a submitter whose pool was taken by a round must
+			// have its outcome.
+			x.observeRotation()
+			x.mu.Lock()
+			for _, wt := range x.waits {
+				if !wt.done && wt.gen < x.gen {
+					w.violate("C17", "submitter %s (%s) is still waiting for the round that took its pool although nothing can run any more and the sequencing deadline has passed", wt.sub, wt.spec)
+				}
+			}
+			x.mu.Unlock()
+		}
 		// After the horizon: let ten more periods pass. Nothing may be left waiting
 		// once the sequencer has stopped, and no further checkpoint may be signed.
 		x.mu.Lock()
@@ -547,6 +575,7 @@ func scenariosC17() []*c17Scenario {
 		{name: "c17/size1/fatal-stop", poolSize: 1, subs: [][]c17Sub{{H("a"), H("b")}, {L("c")}}, ticks: 3, faults: true, bound: bound},
 		{name: "c17/size2/cancel", poolSize: 2, subs: [][]c17Sub{{H("a"), H("b")}, {L("c")}}, ticks: 3, cancel: true, bound: bound},
 		{name: "c17/size2/direct-cancel", poolSize: 2, subs: [][]c17Sub{{H("a"), H("b")}, {L("c")}}, direct: 2, cancel: true, bound: bound},
+		{name: "c17/size2/direct-stalled-discard", poolSize: 2, subs: [][]c17Sub{{H("a"), H("b")}, {L("c")}}, direct: 2, stalledDiscard: true, cancel: true, bound: bound},
 		{name: "c17/size2/clock-anomaly", poolSize: 2, subs: [][]c17Sub{{H("a"), H("b")}, {L("c")}}, ticks: 3, clock: true, bound: bound},
 		{name: "c17/size2/sunset", poolSize: 2, subs: [][]c17Sub{{H("a"), H("b")}, {L("c")}}, ticks: 3, sunset: true, bound: bound},
 	}
